@@ -50,6 +50,16 @@ CLAIMED = {
         "6 C20",
         TECH + "; AST-to-SMT translation of string kernels (z3 strings/regex)",
     ),
+    "C15": (
+        "Bounded solver-based check of to_hashable / memoize on values whose structure comes from a listed grammar (list, tuple, dict, "
+        "OrderedDict, defaultdict, Counter, set, deque with/without maxlen, bytearray, nested one level; <= 3 elements) and whose leaves are "
+        "unbounded symbolic ints: for every listed pair of structures key(v1) == key(v2) iff the values are equal and of the same types; keys "
+        "are hashable and stable; insertion order is (in)significant as documented; memoize returns a stored result only for equal arguments.",
+        "Trusted: z3, CrossHair path exhaustion and builtin models; hash() of a symbolic leaf answered without realisation (S8). Outside: NumPy / "
+        "pandas / pickled objects, cross-interpreter key equality, values embedding the conversion marker.",
+        "6 C15",
+        TECH,
+    ),
 }
 
 NOT_APPLICABLE = {
